@@ -1,4 +1,5 @@
 import DynasmVerif.Generated.A64Dyn
+import DynasmVerif.Generated.RvDyn
 
 /-!
 # C03 — runtime-supplied operands encode exactly like the same literal operands (aarch64 immediates)
